@@ -17,6 +17,10 @@ def run(rep, tier):
     fails, stats = sigrt.signature_checks()
     for descr, err in sigrt.default_granularity_cases():
         fails.append(("C20", f"{descr} (granularity left out): {err}", "default-granularity:" + descr.split("(")[0]))
+    pfails, pn = sigrt.param_signature_cases()
+    for descr, err in pfails:
+        fails.append(("C20", f"{descr}: {err}", "param-signature:" + descr.split("(")[0]))
+    stats["param_signature_cases"] = pn
     seen = set()
     found = False
     for descr, port, role, err in conn:
@@ -42,14 +46,16 @@ def run(rep, tier):
                        "note": "the facts extracted from the source no longer satisfy the theorems of SocVerif/Generated/*.lean"},
                       False, "C20: generated-facts theorem no longer checks: " + "; ".join(broken[0].get("errors", [])[:2]))
     rep.coverage.update({
-        "evaluations": len(conn) + stats["signatures"] + stats["pairs"],
+        "evaluations": len(conn) + stats["signatures"] + stats["pairs"] + pn,
         "distinct_nontrivial": sum(1 for c in conn if c[3] is None) + stats["roundtrips"],
         "generated_facts": info, "connect_experiments": len(conn), "signature_grid": stats,
         "samples": [{"component": c[0], "port": c[1], "role": c[2], "connect": "ok" if c[3] is None else c[3]} for c in conn[:8]],
         "rule": ("(a) facts.py re-extracts from the working tree the members of every signature class over a parameter grid (wishbone: all 64 "
                  "feature subsets x 6 geometries) and the flattened members of every bus-facing port of 30 instantiated components; the "
                  "kernel re-checks them against the Lean member functions and the role table (decide); (b) runtime: wiring.connect() of "
-                 "a freshly created complementary standard interface to every bus-facing port of generated components; create() "
+                 "a freshly created complementary standard interface to every bus-facing port of generated components, and of an interface "
+                 "created from the standard signature with the component's own constructor parameters on a fixed grid (one-row SRAMs, "
+                 "one-word bridges, zero address bits included); create() "
                  "round trip, == on all pairs of the grid vs parameter equality, member presence/widths; non-trivial = successful connect "
                  "or round trip"),
     })
